@@ -1530,9 +1530,7 @@ impl Linearizer {
         rhs: Exp,
         name: String,
     ) -> Result<(), LinearizationError> {
-        let exp = Exp::BinOp(BinOp::Sub, lhs.to_box(), rhs.to_box())
-            .flatten()
-            .simplify();
+        let exp = Exp::BinOp(BinOp::Sub, lhs.to_box(), rhs.to_box()).normal_form();
         let requirement = match comparison {
             Comparison::LessOrEqual | Comparison::Less => ValueRequirement::PreferLower,
             Comparison::GreaterOrEqual | Comparison::Greater => ValueRequirement::PreferHigher,
@@ -1610,7 +1608,7 @@ impl Linearizer {
         bounds.restrict_to_domain(&domain);
         let mut context = Linearizer::new_from_with_bounds(constraints, domain, bounds);
         let objective_type = objective.objective_type.clone();
-        let objective_exp = objective.rhs.flatten().simplify();
+        let objective_exp = objective.rhs.normal_form();
         let objective_requirement = match &objective_type {
             OptimizationType::Min => ValueRequirement::PreferLower,
             OptimizationType::Max => ValueRequirement::PreferHigher,
@@ -1623,8 +1621,8 @@ impl Linearizer {
         while let Some(constraint) = context.pop_constraint() {
             let is_logic_assertion = constraint.is_logic_assertion();
             let (lhs, op, rhs, name) = constraint.into_parts();
-            let lhs = lhs.flatten().simplify();
-            let rhs = rhs.flatten().simplify();
+            let lhs = lhs.normal_form();
+            let rhs = rhs.normal_form();
             if is_logic_assertion {
                 lower_logic_assertion(&lhs, true, &name, &mut context)?;
                 continue;
